@@ -43,8 +43,24 @@ def select(children, ft):
 
 
 def ambiguous_order(children, ft):
+    """True when two selected children share a start but not the end: 'ascending order' does not say which comes first.
+    Children with equal start AND end (duplicated records) are interchangeable in every field, hence not ambiguous."""
     sel = select(children, ft)
-    return len(set(c["start"] for c in sel)) != len(sel)
+    return len(set(c["start"] for c in sel)) != len(set((c["start"], c["end"]) for c in sel))
+
+
+def duplicate_kinds(sel):
+    """Which kinds of duplicated records a selection holds: 'identical' = two children with equal coordinates that carry
+    no ID of their own (byte-identical lines), 'distinct' = equal coordinates under different IDs."""
+    out = set()
+    for i, a in enumerate(sel):
+        for b in sel[i + 1:]:
+            if (a["start"], a["end"], a["type"]) == (b["start"], b["end"], b["type"]) and "id" in a and "id" in b:
+                if a["id"] is None and b["id"] is None:
+                    out.add("identical")
+                elif a["id"] != b["id"]:
+                    out.add("distinct")
+    return out
 
 
 def overlapping(children, ft):
